@@ -229,17 +229,20 @@ func runC12(p *Prog, r *Report) {
 		if fn := resolveFn(p, r, "leveldb/journal", "(*singleReader).Read"); fn != nil {
 			// and the only EOF a record reader produces itself is at r.last
 			last := boolAtom("r.last", mFieldLoad("leveldb/journal.Reader", "last"))
+			// the point where io.EOF is produced as the call's outcome: the load of the sentinel whose value
+			// is returned (directly, or through the variable that collects the outcome)
 			retEOF := func(in ssa.Instruction) bool {
-				ret, ok := in.(*ssa.Return)
-				if !ok || len(ret.Results) != 2 {
+				u, ok := in.(*ssa.UnOp)
+				if !ok || !isGlobalNamed(u, "io", "EOF") {
 					return false
 				}
-				u, ok := stripConv(ret.Results[1]).(*ssa.UnOp)
-				if !ok {
-					return false
+				for _, ref := range *u.Referrers() {
+					switch ref.(type) {
+					case *ssa.Return, *ssa.Phi, *ssa.Store:
+						return true
+					}
 				}
-				g, ok := u.X.(*ssa.Global)
-				return ok && g.Name() == "EOF"
+				return false
 			}
 			checkGuard(p, r, GuardSpec{Rule: "record-complete-only-after-last-chunk", Fn: fn, Target: retEOF, TargetDesc: "return 0, io.EOF (record complete)", Atoms: []Atom{last}, G: func(a []bool) bool { return a[0] }, GDesc: "the last chunk of the record was consumed", MinTargets: 1})
 		}
